@@ -705,3 +705,137 @@ def r_serde(F, V):
                     R.violation(p + "|forget", b, "mem::forget / ManuallyDrop in the serde module: a deserialisation error would leak the partly built collection", line=line_of(b, bb=i))
     R.floor("serde visitor / serialize bodies", n, {"posctl": 0}.get(F.cfg, 4))
     return R
+
+
+# --------------------------------------------------------------------- R-SET-ASSIGN
+
+def _callees_in(F, V, body):
+    """(block, callee path, body-of-site) for the body and the closures it builds"""
+    out = []
+    for i, t in body.calls():
+        out.append((i, callee_path(t) or "", body, t))
+    for s, cb in _closure_bodies(F, V, body):
+        for i, t in cb.calls():
+            out.append((i, callee_path(t) or "", cb, t))
+    return out
+
+
+def r_set_assign(F, V):
+    """the assigning set operators are independent implementations: decide only that each uses contains / insert /
+    remove / retain on the right operands (self vs rhs), not their results"""
+    R = Result("R-SET-ASSIGN", F.cfg)
+    n = 0
+    for p, body in F.bodies.items():
+        if not p.startswith("set::<HashSet as ") or "::{closure" in p:
+            continue
+        m = p.rsplit("::", 1)[-1]
+        if m not in ("bitor_assign", "bitand_assign", "sub_assign"):
+            continue
+        n += 1
+        sites = _callees_in(F, V, body)
+        problems = []
+
+        def roots_of(name):
+            out = []
+            for i, cp, b_, t in sites:
+                if cp == "set::HashSet::" + name:
+                    r, path = _arg_root(b_, t, 0)
+                    if b_ is not body:
+                        # closure: receiver comes from an upvar; map upvar index -> creator operand root
+                        idx = [x for x in path if x.isdigit()]
+                        for s, cb in _closure_bodies(F, V, body):
+                            if cb is b_ and idx and int(idx[0]) < len(s["rv"]["ops"]):
+                                o = s["rv"]["ops"][int(idx[0])]
+                                if o["k"] in ("copy", "move"):
+                                    r = deep_root(body, o["p"])[0]
+                    out.append(r)
+            return out
+        if m == "bitor_assign":
+            if 1 not in roots_of("insert"):
+                problems.append("|= does not insert into self")
+            if roots_of("contains") and 1 not in roots_of("contains"):
+                problems.append("|= tests membership in rhs instead of self")
+            its = [r for i, cp, b_, t in sites if t["f"].get("method") == "into_iter" for r in [_arg_root(b_, t, 0)[0]]]
+            if 2 not in its:
+                problems.append("|= does not iterate rhs")
+        elif m == "bitand_assign":
+            if 1 not in roots_of("retain"):
+                problems.append("&= does not retain on self")
+            if 2 not in roots_of("contains"):
+                problems.append("&= does not test membership in rhs")
+        elif m == "sub_assign":
+            rem = roots_of("remove")
+            ret = roots_of("retain")
+            con = roots_of("contains")
+            if rem and 1 not in rem:
+                problems.append("-= removes from rhs instead of self")
+            if ret and 1 not in ret:
+                problems.append("-= retains on rhs instead of self")
+            if con and 2 not in con:
+                problems.append("-= tests membership in self instead of rhs")
+            if not rem and not ret:
+                problems.append("-= neither removes from nor retains on self")
+            # the retain predicate must be the negation of rhs.contains
+            for s, cb in _closure_bodies(F, V, body):
+                for i, t in cb.calls():
+                    if (callee_path(t) or "") == "set::HashSet::contains":
+                        neg = False
+                        for j, k, st in cb.stmts():
+                            if st["k"] == "assign" and st["rv"]["k"] == "unop" and st["rv"]["op"] == "Not" and st["p"]["l"] == 0:
+                                neg = True
+                        if not neg:
+                            problems.append("-= keeps the elements that ARE in rhs (missing negation)")
+        key = "%s" % m
+        if problems:
+            R.violation(key, body, "; ".join(problems))
+            R.inst(key, "; ".join(problems), "violation", True, where(body))
+        else:
+            R.inst(key, "%s uses contains/insert/remove/retain on the right operands" % m, "ok", True, where(body))
+    R.floor("assigning set operators", n, {"posctl": 0}.get(F.cfg, 3))
+    return R
+
+
+# --------------------------------------------------------------------- R-HASHER-SOURCE
+
+GROWERS = ("raw::RawTable::insert", "raw::RawTable::insert_entry", "raw::RawTable::reserve", "raw::RawTable::try_reserve", "raw::RawTable::shrink_to",
+           "raw::RawTable::find_or_find_insert_slot", "raw::RawTable::resize", "raw::RawTable::reserve_rehash")
+
+
+def r_hasher_source(F, V):
+    """every call from the map/set/entry layers to a raw operation that may re-hash existing elements passes the hasher
+    closure made by make_hasher(<the same map's hash_builder>) - the one lookups use"""
+    R = Result("R-HASHER-SOURCE", F.cfg)
+    n = 0
+    for p, body in F.bodies.items():
+        mod = p.split("::")[0]
+        if mod not in ("map", "set", "raw_entry", "rustc_entry") or "with_hasher" in p or "::{closure" in p:
+            continue
+        for i, t in body.calls():
+            cp = callee_path(t) or ""
+            if cp not in GROWERS:
+                continue
+            cb = F.bodies.get(cp)
+            hq = None
+            for q in range(cb.arg_count):
+                ty = cb.locals[q + 1]["ty"]
+                if ty.get("s", "").startswith("impl Fn(") or (ty.get("k") == "param" and "Fn" in ty.get("s", "")):
+                    hq = q
+            if hq is None or hq >= len(t["args"]):
+                continue
+            n += 1
+            key = "%s|->%s" % (p, cp.split("::")[-1])
+            S = sources(body, t["args"][hq])
+            mh = [c for c in S.calls if c.endswith("make_hasher")]
+            ok = False
+            for c in mh:
+                for blk, tt in S.calls[c]:
+                    r0, p0 = _arg_root(body, tt, 0)
+                    if "hash_builder" in p0 and body.is_arg(r0):
+                        ok = True
+            if ok:
+                R.inst(key, "re-hashing closure = make_hasher(&<self>.hash_builder)", "ok", True, where(body, bb=i))
+            else:
+                R.violation(key, body, "the hasher handed to %s (used to re-place existing elements when the table grows or rehashes) is not make_hasher(&self.hash_builder): after a growth the elements are placed by a different hash than lookups use" % cp, line=line_of(body, bb=i))
+                R.inst(key, "foreign re-hashing closure", "violation", True, where(body, bb=i))
+    R.floor("calls passing a re-hashing closure", n, {"posctl": 0}.get(F.cfg, 8))
+    return R
